@@ -137,6 +137,31 @@ Theorem C13_partial_needs_no_restamp_roles :
 Proof. split; [apply history_hyps_b_ok; vm_compute; reflexivity | violated 1%nat ops_restamped_role_loses_period]. Qed.
 Print Assumptions C13_partial_needs_no_restamp_roles.
 
+(* (6) finding recreated-role-history-lost/named-collection (reproduced on the code before /repo commit 3cadf88, which
+   repaired it, with the database serving a named collection; trace_named_old is that code, trace_named the repaired one): a role the user keeps holding is soft-deleted and created again through the admin path
+   (db.UpdatePrincipal -> auth.NewRoleNoChannels) between two pulls.  The constructor carries over only the DEFAULT
+   collection's channel history of the deleted role, so in a named collection the re-created role has forgotten that it
+   granted channel A (2) until sequence 5: RevokedCollectionChannels reports nothing, no revocation row is built, the
+   client keeps d1.  The history satisfies every hypothesis of C13_client_matches_visible_partial -- in the default
+   collection (trace) the client is right, in the named-collection variant of the model (trace_named) it is not. *)
+Definition ops_role_recreated_between_pulls : list sop :=
+  [SRChans 1 [2]; SURoles [1]; SPut 1 [2] [] []; SPull 0; SDelRole 1; SRChans 1 []; SPull 0].
+
+Theorem C13_named_collection_recreate_loses_revocation :
+  history_hyps ops_role_recreated_between_pulls
+  /\ map (fun o => (o_rows o, o_client o, o_visible o)) (trace ops_role_recreated_between_pulls)
+     = [ ([mkRow 0 3 0 0 [] false false false true; mkRow 0 4 1 1 [] false false false false], [(1, 1)], [1]);
+         ([mkRow 5 4 1 1 [] false true false false], [], []) ]
+  /\ map (fun o => (o_rows o, o_client o, o_visible o)) (trace_named_old ops_role_recreated_between_pulls)
+     = [ ([mkRow 0 3 0 0 [] false false false true; mkRow 0 4 1 1 [] false false false false], [(1, 1)], [1]);
+         ([], [(1, 1)], []) ]
+  /\ map (fun o => (o_rows o, o_client o, o_visible o)) (trace_named ops_role_recreated_between_pulls)
+     = map (fun o => (o_rows o, o_client o, o_visible o)) (trace ops_role_recreated_between_pulls).
+Proof.
+  split; [apply history_hyps_all, history_hyps_b_ok; vm_compute; reflexivity | split; [|split]; vm_compute; reflexivity].
+Qed.
+Print Assumptions C13_named_collection_recreate_loses_revocation.
+
 (* granted_periods_cover cannot be strengthened to "exactly": for a channel a current role holds the function returns
    one open period per channel of the role, stamped with THAT channel's sequence and not intersected with the time the
    role was held (auth/user.go: "for _, channelInfo := range currentRole.CollectionChannels(...)").  Role r1 ("!" at 1,
